@@ -13,11 +13,12 @@
 (*   Down(u, dst, to, t)     a downstream datagram for session u carried the     *)
 (*                           payload of a packet whose IP destination is dst,    *)
 (*                           sent to source address `to`                         *)
-(* CheckIp = source checking enabled.  Boundary instants are left to the code:  *)
-(* "active during the last 60 s" is judged with the accepted requests the wire   *)
-(* shows (lastAcc), "silent for more than 60 s" with every request naming the    *)
-(* slot from anyone (lastAny), so the monitor only rejects what is wrong under   *)
-(* every reading of the boundary.                                                *)
+(* CheckIp = source checking enabled.  "Active during the last 60 s" is judged    *)
+(* with the accepted requests the wire shows (lastAcc; t = the server's own      *)
+(* clock reading when it handled the request, so the takeover clause is exact:   *)
+(* silence of exactly 60 s still protects the slot); "silent for more than 60 s" *)
+(* with every request naming the slot from anyone (lastAny), with a second of    *)
+(* slack, so that those clauses only reject what is wrong under every reading.   *)
 EXTENDS Naturals, FiniteSets
 
 CONSTANTS Users, CheckIp, EXP
@@ -30,7 +31,8 @@ MIsInit == /\ inuse = [u \in Users |-> FALSE] /\ bound = [u \in Users |-> 0]
 
 NewSession(u, src, t) ==
     /\ u \in Users
-    /\ inuse[u] => t - lastAcc[u] >= EXP                 \* never takes over a recently active slot
+    /\ inuse[u] => t - lastAcc[u] > EXP                  \* never takes over a slot that was active during the last EXP s
+                                                          \* (t is the server's own clock reading at each request)
     /\ inuse' = [inuse EXCEPT ![u] = TRUE] /\ bound' = [bound EXCEPT ![u] = src]
     /\ logged' = [logged EXCEPT ![u] = FALSE] /\ addr' = [addr EXCEPT ![u] = ""]
     /\ lastAcc' = [lastAcc EXCEPT ![u] = t] /\ lastAny' = [lastAny EXCEPT ![u] = t]
